@@ -34,7 +34,8 @@ ASSUMPTIONS = ["single-threaded histories (concurrent scheduler calls swapping C
 BUDGET = {"quick": 40, "thorough": 500}
 FLOORS = {"quick": {"evaluations": 6000, "distinct_nontrivial": 3000,
                     "counters": {"scheduler_calls": 8000, "calls_with_nested_same_callback": 300,
-                                 "calls_with_registered_and_context": 300, "failing_calls": 2000}},
+                                 "calls_with_registered_and_context": 300, "failing_calls": 2000,
+                                 "calls_with_raising_callback": 2000, "raising_hook_start": 700, "raising_hook_posttask": 300}},
           "thorough": {"evaluations": 80000, "distinct_nontrivial": 50000,
                        "counters": {"scheduler_calls": 100000, "failing_calls": 30000}}}
 EXHAUSTIVE_SPACE = {"quick": "all valid histories of length <= 4 over ops {enter x 2 callbacks x 2 styles, exit, register x 2, "
@@ -65,6 +66,8 @@ def _valid_next(state, ncb, styles):
             yield ("unreg", i)
     yield ("get", "ok")
     yield ("get", "fail")
+    if stack or reg:
+        yield ("get", "cbfail")
 
 
 def _step(state, op):
@@ -110,7 +113,7 @@ def cases(tier, seed):
             h.append(op)
             state = _step(state, op)
         if h[-1][0] != "get":
-            h.append(("get", rng.choice(("ok", "fail"))))
+            h.append(("get", rng.choice(("ok", "fail", "cbfail") if (state[0] or state[1]) else ("ok", "fail"))))
         yield {"h": [list(o) for o in h], "seed": rng.randrange(2 ** 31)}
 
 
@@ -200,6 +203,9 @@ def run_case(case, ctx):
                 if set(registered) and stack:
                     ctx.count("calls_with_registered_and_context")
                 ctx.count("scheduler_calls")
+                if op[1] == "cbfail" and active:
+                    _cbfail_call(ctx, S, C, dsk_ok, sorted(active), rng, out, pos, feats)
+                    continue
                 if failing:
                     ctx.count("failing_calls")
                 obs = S.run_controlled(dsk_fail if failing else dsk_ok, ["k2", "k1"], num_workers=2, chunksize=1,
@@ -254,6 +260,52 @@ def run_case(case, ctx):
     ctx.nontrivial = not trivial
     ctx.sig = case["h"]
     ctx.sample = {"history": case["h"], "scheduler_calls": ngets}
+
+
+def _cbfail_call(ctx, S, C, dsk_ok, active, rng, out, pos, feats):
+    """A scheduler call during which one hook of one active callback raises: the call fails with that exception, and
+    every callback whose start completed gets exactly one finish, with the failure flag set ("even on failure")."""
+    tag = rng.choice(active)
+    hook = rng.choice(("start", "start", "start_state", "pretask", "posttask"))
+    before = set(C.Callback.active)
+    S.FAULT.update(tag=tag, hook=hook)
+    try:
+        obs = S.run_controlled(dsk_ok, ["k2", "k1"], num_workers=2, chunksize=1, policy="random",
+                               rng=random.Random(rng.randrange(2 ** 31)), callbacks="global", trace_cache=False)
+    finally:
+        S.FAULT.update(tag=None, hook=None)
+    ctx.count("calls_with_raising_callback")
+    ctx.count("raising_hook_" + hook)
+    f = "callback-%s-raises" % hook
+    if len(active) > 1:
+        f += "&several-active"
+    raised = [ev for ev in obs.events if ev[1] == "cb_raise"]
+    if not raised:
+        out(f + ":hook-never-called", "the %s hook of %s was never called; events %s" % (hook, tag, [e[1:3] for e in obs.events][:12]), pos)
+        return
+    if not isinstance(obs.exc, S.CallbackBoom):
+        out(f + ":exception-not-surfaced", "scheduler call ended with %r" % (obs.exc,), pos)
+    started = [ev[2] for ev in obs.events if ev[1] == "cb_started"]
+    for t in active:
+        nfin = [ev for ev in obs.events if ev[1] == "cb_finish" and ev[2] == t]
+        want = 1 if t in started else 0
+        if t == tag and hook == "start":
+            want = 0            # its start did not complete; nothing is demanded either way
+            if len(nfin) > 1:
+                out(f + ":finish-count", "%s: finish fired %d times" % (t, len(nfin)), pos)
+            continue
+        if len(nfin) != want:
+            out(f + ":finish-count", "%s (start completed: %s): finish fired %d times, expected %d; started=%s raising=%s"
+                % (t, t in started, len(nfin), want, started, tag), pos)
+        for ev in nfin:
+            if ev[3] is not True:
+                out(f + ":finish-flag-not-set-on-failure", "tag %s failed=%r" % (t, ev[3]), pos)
+        if started.count(t) > 1:
+            out(f + ":start-count", "%s: start fired %d times" % (t, started.count(t)), pos)
+    if hook in ("start", "start_state") and any(ev[1] in ("cb_pre", "cb_post") for ev in obs.events):
+        out(f + ":task-ran-after-callback-failure", "tasks were started although %s raised" % hook, pos)
+    if set(C.Callback.active) != before:
+        out(f + ":registry-changed-by-call", "Callback.active has %d entries, before %d" % (len(C.Callback.active), len(before)), pos)
 
 
 def _ident(i, style):
